@@ -353,6 +353,15 @@ func (g *Gen) Next() Op {
 		op, ok := g.genFamily(fam)
 		if ok {
 			op.Fam = fam
+			if g.c18 && (op.Mode == "unsafe" || op.Mode == "same-unsafe") {
+				// an unsafe operation works in one of its operands - with a scalar first operand in the
+				// second one: none of them may be (a view of) a shared tensor
+				for _, s := range op.In {
+					if g.tainted(s) {
+						op.Mode = ""
+					}
+				}
+			}
 			return op
 		}
 	}
